@@ -268,6 +268,12 @@ class socket:
                 o.optflag |= self.flags.RX_EXT_ADDR
 
             self.set_opts(optflag=o.optflag, ext_address=self.address.get_tx_extension_byte(), rx_ext_address=self.address.get_rx_extension_byte())
+        else:
+            o = self.get_opts()
+            assert o.optflag is not None
+            if o.optflag & (self.flags.EXTEND_ADDR | self.flags.RX_EXT_ADDR):
+                # An extension byte configured earlier does not apply to an address without one
+                self.set_opts(optflag=o.optflag & ~(self.flags.EXTEND_ADDR | self.flags.RX_EXT_ADDR))
 
         self._socket.bind((interface, rxid, txid))
         self.bound = True
